@@ -7,6 +7,7 @@
 mod exec;
 #[macro_use]
 mod exec_cont;
+mod exec_conc;
 mod exec_ext;
 mod exec_own;
 mod oracle_cont;
@@ -379,6 +380,220 @@ fn own_props(tier: &str, seed: u64, threads: usize, out: &str) {
     write_outputs(out, &ctxs, extra);
 }
 
+/// canonical form of an observation for the plain-vs-sync differential: results that come out of a
+/// hash map are compared up to container order
+fn canon_c15(req: &str, out: &str, relaxed_dump: bool) -> String {
+    let sort_list = |s: &str| -> String {
+        let inner = s.trim_start_matches('[').trim_end_matches(']');
+        let mut v: Vec<&str> = if inner.is_empty() { vec![] } else { inner.split(',').collect() };
+        v.sort();
+        format!("[{}]", v.join(","))
+    };
+    let head = req.split(' ').next().unwrap_or("");
+    match head {
+        "g.to_vec" | "g.roots" | "g.leaves" | "g.orphans" | "g.iter" => sort_list(out),
+        "g.scc" => {
+            let inner = out.trim_start_matches('[').trim_end_matches(']');
+            let mut comps: Vec<String> = inner.split("],[").filter(|x| !x.is_empty()).map(|c| sort_list(c)).collect();
+            comps.sort();
+            comps.join(";")
+        }
+        "g.to_dot" | "g.to_dot_attr" => {
+            let mut v: Vec<&str> = out.split('|').collect();
+            v.sort();
+            v.join("|")
+        }
+        "g.ser" => match serde_json::from_str::<(Vec<(usize, i64)>, Vec<(usize, usize, u32)>)>(out) {
+            Ok((mut n, mut e)) => {
+                n.sort();
+                e.sort();
+                format!("{:?}{:?}", n, e)
+            }
+            Err(_) => out.to_string(),
+        },
+        "dump" if relaxed_dump => {
+            let mut v: Vec<String> = out
+                .split(' ')
+                .map(|ent| match ent.split_once('/') {
+                    Some((o, i)) => format!("{o}/{}", sort_list(i)),
+                    None => match ent.split_once(':') {
+                        Some((k, l)) => format!("{k}:{}", sort_list(l)),
+                        None => ent.to_string(),
+                    },
+                })
+                .collect();
+            v.sort();
+            v.join(" ")
+        }
+        _ => out.to_string(),
+    }
+}
+
+/// C15: every generated program is run on both members of a pair; the two implementation streams are
+/// compared directly (no model involved), and both are also compared with the model by the check
+fn c15_props(tier: &str, seed: u64, threads: usize, out: &str) {
+    let quick = tier == "quick";
+    let mut ctxs = new_ctxs(threads, &["c15"]);
+    let mut extra = BTreeMap::new();
+    let n = if quick { 600 } else { 12000 };
+    exec::new_section();
+    let nt = ctxs.len();
+    std::thread::scope(|s| {
+        for (t, ctx) in ctxs.iter_mut().enumerate() {
+            std::thread::Builder::new()
+                .stack_size(256 << 20)
+                .spawn_scoped(s, move || {
+                    let mut i = t;
+                    while i < n && !exec::stopped() {
+                        let mut rng = Rng::new(seed.wrapping_mul(71).wrapping_add(i as u64));
+                        let (a, b) = if i % 2 == 0 { ("di", "sdi") } else { ("un", "sun") };
+                        let kind = (i / 2) % 8;
+                        let id = format!("p{i}");
+                        let lines: Vec<String> = match kind {
+                            0 => { let nn = 1 + rng.below(6); gen_edge::random_history(&mut rng, a, &id, nn, if quick { 80 } else { 200 }, true) }
+                            1 | 2 | 3 | 4 => {
+                                let g = gen_search::random_graph(&mut rng, if kind == 1 { 25 } else { 7 });
+                                let mut l = vec![format!("case {a} {id}")];
+                                l.extend(gen_search::graph_lines(&g));
+                                let p = ["C07", "C08", "C09", "C10"][kind - 1];
+                                l.extend(gen_search::requests(p, a, &g, false, Some(&mut rng)));
+                                l.extend(gen_search::requests("C06", a, &g, false, Some(&mut rng)).into_iter().take(40));
+                                l.push("cmp 1 2 1 3".into());
+                                l.push("cmp 1 2 2 2".into());
+                                l
+                            }
+                            5 => { let nk = 2 + rng.below(5); gen_cont::cont_history(&mut rng, a, &id, nk, 60) }
+                            6 => {
+                                let g = gen_search::random_graph(&mut rng, 12);
+                                if a == "di" { gen_cont::scc_case(a, &id, &g, &mut rng, 2) } else { gen_cont::serde_case(a, &id, &g) }
+                            }
+                            _ => {
+                                let g = gen_search::random_graph(&mut rng, 10);
+                                gen_cont::serde_case(a, &id, &g)
+                            }
+                        };
+                        // calls that exist in only one member of a pair are outside "calls common to both"
+                        let lines: Vec<String> = lines.into_iter().filter(|l| !(a == "un" && (l.starts_with("g.to_dot_attr") || l.contains(" default ")))).collect();
+                        let relaxed = lines.iter().any(|l| l.starts_with("g.roundtrip") || l.starts_with("g.de"));
+                        let start_a = ctx.outs.len();
+                        exec::run_program(&lines, ctx);
+                        let end_a = ctx.outs.len();
+                        let mut lines_b = lines.clone();
+                        lines_b[0] = format!("case {b} {id}");
+                        exec::run_program(&lines_b, ctx);
+                        let end_b = ctx.outs.len();
+                        let (oa, ob) = (ctx.outs[start_a..end_a].to_vec(), ctx.outs[end_a..end_b].to_vec());
+                        let pa = ctx.prog[start_a..end_a].to_vec();
+                        for j in 0..oa.len().max(ob.len()) {
+                            let (x, y) = (oa.get(j).cloned().unwrap_or("<missing>".into()), ob.get(j).cloned().unwrap_or("<missing>".into()));
+                            let req = pa.get(j).cloned().unwrap_or_default();
+                            if canon_c15(&req, &x, relaxed) != canon_c15(&req, &y, relaxed) {
+                                ctx.fail(&lines[0], j.saturating_sub(1), "c15", format!("`{}`: {a} gives `{}` but {b} gives `{}`", req, x, y));
+                                break;
+                            }
+                        }
+                        ctx.count(&format!("pairs.kind{kind}"));
+                        ctx.count("cases");
+                        if ctx.samples.len() < 2 {
+                            ctx.samples.push(lines.iter().take(12).cloned().collect::<Vec<_>>().join(" ; "));
+                        }
+                        i += nt;
+                    }
+                })
+                .unwrap();
+        }
+    });
+    extra.insert("programs".into(), format!("{n} programs, each run on both members of its pair (edge histories with handle provenance, all traversal configurations, containers, scc, DOT, serde round trips, comparisons)"));
+    write_outputs(out, &ctxs, extra);
+}
+
+/// C17: every schedule of every scenario (exhaustive depth-first over the decision points)
+fn conc_props(tier: &str, seed: u64, out: &str) {
+    let quick = tier == "quick";
+    // the scheduler is a process-wide singleton: scenarios run one after the other in one context
+    let mut ctxs = new_ctxs(1, &["c17"]);
+    let ctx = &mut ctxs[0];
+    let mut extra = BTreeMap::new();
+    let inits: Vec<(&str, Vec<String>)> = vec![
+        ("empty", vec![]),
+        ("u->v", vec!["connect 0 1 7".into()]),
+        ("u<->v", vec!["connect 0 1 7".into(), "connect 1 0 8".into()]),
+        ("loop+par", vec!["connect 0 0 5".into(), "connect 0 1 7".into(), "connect 0 1 9".into()]),
+    ];
+    let muts = ["c.0.1.1", "c.1.0.2", "t.0.1.3", "d.0.1", "d.1.0", "x.0", "x.1"];
+    let reads = ["q.0.1", "g.0", "o.1", "i.0", "i.1"];
+    let mut scenarios: Vec<(String, Vec<String>, String)> = vec![];
+    for (iname, init) in inits.iter().take(if quick { 3 } else { 4 }) {
+        for a in 0..muts.len() {
+            for b in a..muts.len() {
+                scenarios.push((format!("{iname}:{}||{}", muts[a], muts[b]), init.clone(), format!("{}|{}", muts[a], muts[b])));
+            }
+            for r in reads {
+                scenarios.push((format!("{iname}:{}||{}", muts[a], r), init.clone(), format!("{}|{}", muts[a], r)));
+            }
+        }
+        if !quick {
+            // three threads, and two calls per thread
+            let mut rng = Rng::new(seed.wrapping_mul(67));
+            for _ in 0..40 {
+                let pick = |rng: &mut Rng| -> String { if rng.chance(75) { muts[rng.below(muts.len())].to_string() } else { reads[rng.below(reads.len())].to_string() } };
+                let t3 = format!("{}|{}|{}", pick(&mut rng), pick(&mut rng), pick(&mut rng));
+                scenarios.push((format!("{iname}:{t3}"), init.clone(), t3));
+                let t2 = format!("{}/{}|{}/{}", pick(&mut rng), pick(&mut rng), pick(&mut rng), pick(&mut rng));
+                scenarios.push((format!("{iname}:{t2}"), init.clone(), t2));
+            }
+        }
+    }
+    let cap = if quick { 3000 } else { 30000 };
+    let mut total = 0usize;
+    let mut per_fl: BTreeMap<String, usize> = BTreeMap::new();
+    for fl in ["sdi", "sun"] {
+        exec::new_section();
+        for (name, init, spec) in &scenarios {
+            if exec::stopped() {
+                break;
+            }
+            let mut prefix: Vec<String> = vec!["new 0 0".into(), "new 1 0".into()];
+            prefix.extend(init.iter().cloned());
+            let threads = exec_conc::parse_threads(spec);
+            let seq = if fl == "sdi" { exec_conc::sdi::sequential_outcomes(&prefix, &threads) } else { exec_conc::sun::sequential_outcomes(&prefix, &threads) };
+            let mut forced: Vec<usize> = vec![];
+            let mut runs = 0usize;
+            loop {
+                let mut lines = vec![format!("case {fl} k{total}")];
+                lines.extend(prefix.iter().cloned());
+                lines.push(format!("conc {spec}"));
+                ctx.forced_schedule = forced.clone();
+                ctx.last_outcome = None;
+                exec::run_program(&lines, ctx);
+                runs += 1;
+                total += 1;
+                if let Some(o) = ctx.last_outcome.take() {
+                    let bad = o.1 == "POISONED" || o.0.iter().flatten().any(|r| r == "PANIC" || r == "DEADLOCK" || r == "?");
+                    if !bad && !seq.contains(&o) {
+                        let kind = if seq.iter().any(|s| s.1 == o.1) { "wrong-return" } else { "torn-state" };
+                        let n = ctx.prog.len();
+                        ctx.fail(&format!("case {fl} k{}", total - 1), prefix.len(), "c17", format!("{kind}: scenario {name}: results {:?} and final state [{}] equal no sequential order of the calls (sequential outcomes: {:?})", o.0, o.1, seq));
+                        let _ = n;
+                    }
+                }
+                match sched::next_schedule(&ctx.last_decisions) {
+                    Some(s) if runs < cap => forced = s,
+                    _ => break,
+                }
+            }
+            *per_fl.entry(fl.to_string()).or_insert(0) += runs;
+            ctx.count("scenarios");
+        }
+    }
+    for (k, v) in per_fl {
+        extra.insert(format!("schedules.{k}"), format!("{v}"));
+    }
+    extra.insert("scenarios".into(), format!("{} per flavour (every pair of the 7 two-node mutators, every mutator against 5 readers, x initial states{})", scenarios.len(), if quick { "" } else { "; plus 3-thread and 2-calls-per-thread scenarios" }));
+    ctx.counters.insert("cases".into(), total as u64);
+    write_outputs(out, &ctxs, extra);
+}
+
 fn main() {
     if std::env::var("VERIF_DEBUG").is_err() {
         std::panic::set_hook(Box::new(|_| {}));
@@ -396,6 +611,8 @@ fn main() {
             match prop.as_str() {
                 "C01" | "C02" | "C03" => edge_props(&prop, &tier, seed, threads, &out),
                 "C19" => own_props(&tier, seed, threads, &out),
+                "C17" => conc_props(&tier, seed, &out),
+                "C15" => c15_props(&tier, seed, threads, &out),
                 "C11" | "C12" | "C13" | "C18" => cont_props(&prop, &tier, seed, threads, &out),
                 "C04" | "C05" | "C06" | "C07" | "C08" | "C09" | "C10" => search_props(&prop, &tier, seed, threads, &out),
                 _ => {
